@@ -74,6 +74,9 @@ type Proc struct {
 	Observer func(p *Proc, op, path string)
 	// WriteSizes records the buffer length of every write effect by index.
 	WriteSizes map[int]int
+	// HardKill makes the crash a real one: the operating-system process exits
+	// at once (used by the conformance check of the simulated kill).
+	HardKill bool
 }
 
 // Crash is the panic value that unwinds a killed process.
@@ -110,6 +113,9 @@ func ResetLocks() {
 }
 
 func (p *Proc) kill() {
+	if p.HardKill {
+		os.Exit(137)
+	}
 	p.Dead = true
 	mu.Lock()
 	for path, owner := range held {
@@ -358,7 +364,9 @@ func (f *File) Write(b []byte) (int, error) {
 			if n := min(p.Torn, len(b)); n > 0 {
 				f.f.Write(b[:n])
 			}
-			f.f.Close() // the kernel closes a dead process's descriptors
+			if !p.HardKill {
+				f.f.Close() // the kernel closes a dead process's descriptors
+			}
 			p.kill()
 		}
 	}
